@@ -169,8 +169,13 @@ func (ft *FileTransfer) formattedTransferSize() string {
 	}
 }
 
+// ItemCount decodes FolderItemCount, which holds the client's field as sent: a 2 or a 4 byte integer.
 func (ft *FileTransfer) ItemCount() int {
-	return int(binary.BigEndian.Uint16(ft.FolderItemCount))
+	var n int
+	for _, b := range ft.FolderItemCount {
+		n = n<<8 | int(b)
+	}
+	return n
 }
 
 type folderUpload struct {
